@@ -1,5 +1,6 @@
 /* map world: C08 (one entry per key, never replaced or lost silently) and the map part of C15 */
 #include "cstl/map.h"
+#define W_AUDIT_NEW_STATES_ONLY 1   /* the key holds the implementation's raw state AND the reference model, so the audit verdict is a function of the key */
 #include "../engine/mc.h"
 #include <sanitizer/asan_interface.h>
 
@@ -238,6 +239,7 @@ static void w_canon(void)
         if (it._) { KB_U((unsigned)i); KB_C('='); KB_I(kid(it.key)); KB_C('/'); KB_I(vid(it.val)); KB_C(' '); }
     }
     cstl_rbtree_foreach(&M.t, cb_shape, NULL, CSTL_BINTREE_FOREACH_DIR_FWD);
+    KB_C('m'); for (i = 0; i < NKV; i++) { KB_I(m_key[i]); KB_C('/'); KB_I(m_val[i]); KB_C(' '); }
 }
 static void w_opname(mc_op_t o, char *b, size_t n)
 {
